@@ -148,7 +148,7 @@ def run(check, tier, seed, jobs, evid_path):
         "(FnGraph<F>, FnRef, stream(), stream_with(), the 12 for_each_concurrent*/try_for_each_concurrent* futures) are Send/Sync, for F = a plain Send+Sync struct and Send user futures, "
         "in configuration A (default features) and B (interruptible); negative controls (Rc, the fold_async future) must read false. "
         "Part 2 (in-family): the values are moved across threads for real - runs awaited inside tokio::spawn on a multi-thread runtime over an Arc<FnGraph>, FnRefs dropped on other threads, "
-        "several threads each driving runs on one &FnGraph - natively in the quick tier and under ThreadSanitizer and Miri in the thorough tier; a data race or an E0277 Send/Sync compile error of that workload is the violation. "
+        "several threads each driving runs on one &FnGraph, and a stream handed from thread to thread between polls (polled to Pending on thread A, again on thread B with B's own waker, an FnRef dropped on thread C: B's waker must have been signalled if a further poll finds anything) - natively in the quick tier and under ThreadSanitizer and Miri in the thorough tier; a data race or an E0277 Send/Sync compile error of that workload is the violation. "
         "A second probe repeats the moves with a function type that is Send + Sync but NOT 'static (it borrows a counter from the caller's stack) and StreamOpts values built elsewhere and moved in; "
         "it is built with and without the Send requirement, so that a compile failure that only the Send requirement causes is reported as the violation. "
         "Limit: a handful of F and future types, not every F."
